@@ -5,6 +5,13 @@ class Array(list):
 class Dictionary(dict):
     def __init__(self, it=(), signature=None): dict.__init__(self, it)
 class ByteArray(bytes): pass
+class UInt64(int): pass
+class UInt32(int): pass
+class UInt16(int): pass
+class Int64(int): pass
+class Int32(int): pass
+class Byte(int): pass
+class Boolean(int): pass
 class Interface:
     def __init__(self,*a,**k): pass
 from . import service, bus, exceptions
